@@ -61,6 +61,31 @@ C_UNDONULL = ('__CPROVER_requires(sp_state_ok(&G_P0) && G_SQ < 64 && wf_board(se
               '__CPROVER_ensures(wf_board_at(self, G_SQ) && wf_row_at(self, G_PC, G_SQ, G_I, G_J) && hash_ok(self))\n')
 
 
+# replay: the counterexample's position before the move (G_P0) and the move are played and taken back on the real engine
+REPLAY_UNDO = {'needs': ['G_P0.side', 'W_m'], 'body': '''
+  SPos S; memset(&S, 0, sizeof S);
+  for (int s = 0; s < 64; s++) S.board[s] = (sp_pc)G_P0_board[s];
+  S.side = (uint32_t)G_P0_side; S.rights = (uint32_t)G_P0_rights; S.ep = (uint32_t)G_P0_ep;
+  std::string fen; const char* pcs = ".PNBRQKpnbrqk";
+  for (int r = 7; r >= 0; r--) { int e = 0; for (int f = 0; f < 8; f++) { int pc = S.board[r * 8 + f]; if (!pc) e++; else { if (e) fen += char('0' + e); e = 0; fen += pcs[pc]; } } if (e) fen += char('0' + e); if (r) fen += '/'; }
+  fen += S.side ? " b " : " w "; std::string cr; if (S.rights & 1) cr += 'K'; if (S.rights & 2) cr += 'Q'; if (S.rights & 4) cr += 'k'; if (S.rights & 8) cr += 'q'; fen += cr.empty() ? "-" : cr;
+  fen += ' '; if (S.ep == 64) fen += '-'; else { fen += char('a' + (S.ep & 7)); fen += char('1' + (S.ep >> 3)); }
+  fen += " " + std::to_string((unsigned)G_P0_half) + " 1";
+  Position Q(fen);
+  std::string f0 = Q.fen(); uint64_t k0 = Q.hash(), pk0 = Q.pawn_hash(); bool rep0 = Q.is_repeated(), dr0 = Q.is_draw();
+  Piece b0[64]; for (int s = 0; s < 64; s++) b0[s] = Q.piece_at((Square)s);
+  Move m = (Move)W_m; MoveInfo mi = Q.do_move(m); std::string f1 = Q.fen(); Q.undo_move(m, mi);
+  int bad = 0;
+  if (Q.fen() != f0) { printf("FEN before %s, after do/undo %s\\n", f0.c_str(), Q.fen().c_str()); bad++; }
+  if (Q.hash() != k0 || Q.pawn_hash() != pk0) { printf("keys differ after do/undo\\n"); bad++; }
+  if (Q.is_repeated() != rep0 || Q.is_draw() != dr0) { printf("repetition/draw answers differ after do/undo\\n"); bad++; }
+  for (int s = 0; s < 64; s++) if (Q.piece_at((Square)s) != b0[s]) { printf("square %d differs after do/undo\\n", s); bad++; }
+  printf("position %s, move %s (-> %s): %d observable(s) changed by do_move + undo_move\\n", f0.c_str(), Q.uci(m).c_str(), f1.c_str(), bad);
+  if (bad) printf("CONFIRMED do_move followed by undo_move does not restore the position\\n"); else printf("NOT-REPRODUCED\\n");
+''', 'access': ''}
+REPLAY_UNDO_DECL = '#include <cstring>\n'
+
+
 def jobs(tier, seed):
     out = []
     common = dict(spec=SPEC, post_spec=HPOST, force_globals=HG, post=linear_scan)
@@ -72,7 +97,8 @@ def jobs(tier, seed):
             out.append(Job('undo_move/%s/%s' % (cname, part), PTUS, [UNDO], h, 'h_undo', contracts={UNDO: PRE_UNDO + ens}, enforce=UNDO, pre_text=HGHOST + GHOST + MOVE_CLASS + CAPT,
                            unwindset=loops_unwind([('Position__remove_piece', 11), ('Position__move_piece', 11)]), timeout=2400, flags=['--slice-formula'],
                            canary=(part == 'state'), backend=('cadical' if part == 'lists' else 'minisat'), tier=('thorough' if part == 'lists' else 'quick'), route='closed-by-complete-unwinding(11); piece mutators inlined',
-                           note='undo_move restores the abstract state of the position before the move; move class: %s; part: %s' % (cname, part), **common))
+                           replay=REPLAY_UNDO, note='undo_move restores the abstract state of the position before the move; move class: %s; part: %s' % (cname, part), **common))
+            out[-1].replay_decl = REPLAY_UNDO_DECL
     h = ND + ('void h_dn(void) { struct Position P = nondet_Position(); G_SQ = nondet_u32(); G_PC = nondet_u32(); G_I = nondet_int(); G_J = nondet_int(); __CPROVER_assume(G_PC >= 1 && G_PC <= 12); sp_of(&P, &G_P0);\n' + HSET + '  %s(&P);' % DONULL + CANARY + '}\n')
     out.append(Job('null/do_null_move', PTUS, [DONULL], h, 'h_dn', contracts={DONULL: C_DONULL}, enforce=DONULL, pre_text=HGHOST + GHOST + CAPT, timeout=1200,
                    note='null move: side flipped, e.p. square and its key component cleared, clocks advanced, placement untouched', **common))
